@@ -7,7 +7,6 @@ import (
 	"path/filepath"
 	"sort"
 	"strconv"
-	"syscall"
 
 	"github.com/rs/zerolog"
 )
@@ -24,13 +23,6 @@ var suites = map[string]SuiteFn{}
 func register(name string, fn SuiteFn) { suites[name] = fn }
 
 func main() {
-	// the binary under test has no include-cycle detection: it stops when it runs out of file
-	// descriptors.  Keep that bound the same wherever the checks run.
-	var rl syscall.Rlimit
-	if err := syscall.Getrlimit(syscall.RLIMIT_NOFILE, &rl); err == nil && rl.Cur > 4096 {
-		rl.Cur = 4096
-		_ = syscall.Setrlimit(syscall.RLIMIT_NOFILE, &rl)
-	}
 	if len(os.Args) < 2 {
 		fmt.Fprintln(os.Stderr, "usage: vh run|list|gen ...")
 		os.Exit(2)
